@@ -111,6 +111,7 @@ let () =
         let out =
           match fn with
           | "strip" -> Some (Model.m_strip arg)
+          | "classorder" -> Some (Model.m_classorder arg)
           | "escamp" -> Some (Model.m_escamp arg)
           | "entities" -> Some (Model.m_entities arg)
           | "wrap" -> Model.m_wrap arg
